@@ -244,7 +244,7 @@ fn enc_audit(it: &Interner, a: &AuditEntry, t: &mut Toks) {
                 .vers
                 .iter()
                 .enumerate()
-                .filter(|(_, v)| violation.matches(v))
+                .filter(|(_, v)| violation.0.matches(&v.semver))
                 .map(|(i, _)| i)
                 .collect();
             t.n(2).list(&m);
